@@ -30,6 +30,7 @@ def run(ctx, db, tier):
     resumed_once(ctx, db)
     from . import C06
     C06.self_inclusion(ctx, db, 'C05.awaiter-queued-once')
+    C06.listed_queued_once(ctx, db, 'C05.ready-handles-queued-once')
     C06.consumers_clear(ctx, db, 'C05.handles-consumed-once')
     # what pop() / the iteration hands to the scheduler must be a handle that was put in: the list reads the storage it wrote
     C06.typestate(ctx, db, 'C05.carried-handles-read-where-written')
